@@ -24,21 +24,52 @@ use std::mem;
 use std::ops::Deref;
 use std::time::Duration;
 
+#[cfg(not(kani))]
 thread_local! {
     static OS_IPC_CHANNELS_FOR_DESERIALIZATION: RefCell<Vec<OsOpaqueIpcChannel>> =
         RefCell::new(Vec::new())
 }
+#[cfg(not(kani))]
 thread_local! {
     static OS_IPC_SHARED_MEMORY_REGIONS_FOR_DESERIALIZATION:
         RefCell<Vec<Option<OsIpcSharedMemory>>> = RefCell::new(Vec::new())
 }
+#[cfg(not(kani))]
 thread_local! {
     static OS_IPC_CHANNELS_FOR_SERIALIZATION: RefCell<Vec<OsIpcChannel>> = RefCell::new(Vec::new())
 }
+#[cfg(not(kani))]
 thread_local! {
     static OS_IPC_SHARED_MEMORY_REGIONS_FOR_SERIALIZATION: RefCell<Vec<OsIpcSharedMemory>> =
         RefCell::new(Vec::new())
 }
+
+// verif hook H2: Kani (single-threaded) cannot compile thread_local! values with destructors;
+// under cfg(kani) the four side tables are plain statics with the same `.with` surface.
+#[cfg(kani)]
+mod kani_tls {
+    pub struct KaniTls<T>(pub T);
+    unsafe impl<T> Sync for KaniTls<T> {}
+    impl<T> KaniTls<T> {
+        pub fn with<R>(&'static self, f: impl FnOnce(&T) -> R) -> R {
+            f(&self.0)
+        }
+    }
+}
+#[cfg(kani)]
+static OS_IPC_CHANNELS_FOR_DESERIALIZATION: kani_tls::KaniTls<RefCell<Vec<OsOpaqueIpcChannel>>> =
+    kani_tls::KaniTls(RefCell::new(Vec::new()));
+#[cfg(kani)]
+static OS_IPC_SHARED_MEMORY_REGIONS_FOR_DESERIALIZATION: kani_tls::KaniTls<
+    RefCell<Vec<Option<OsIpcSharedMemory>>>,
+> = kani_tls::KaniTls(RefCell::new(Vec::new()));
+#[cfg(kani)]
+static OS_IPC_CHANNELS_FOR_SERIALIZATION: kani_tls::KaniTls<RefCell<Vec<OsIpcChannel>>> =
+    kani_tls::KaniTls(RefCell::new(Vec::new()));
+#[cfg(kani)]
+static OS_IPC_SHARED_MEMORY_REGIONS_FOR_SERIALIZATION: kani_tls::KaniTls<
+    RefCell<Vec<OsIpcSharedMemory>>,
+> = kani_tls::KaniTls(RefCell::new(Vec::new()));
 
 #[derive(Debug)]
 pub enum IpcError {
@@ -1038,4 +1069,37 @@ where
         // of bounds. We should return an `Err` result instead.
         Ok(os_ipc_channels_for_deserialization.borrow_mut()[index].to_receiver())
     })
+}
+
+// verif hook H3: build an undecoded message from raw parts, and look at the side tables.
+#[cfg(any(kani, ipc_channel_verif))]
+pub mod verif_hooks {
+    use super::*;
+    pub fn opaque_message(
+        data: Vec<u8>,
+        channels: Vec<OsOpaqueIpcChannel>,
+        regions: Vec<OsIpcSharedMemory>,
+    ) -> OpaqueIpcMessage {
+        OpaqueIpcMessage::new(data, channels, regions)
+    }
+    /// (channels, regions) currently parked in this thread's serialisation side tables.
+    pub fn serialization_tables_len() -> (usize, usize) {
+        (
+            OS_IPC_CHANNELS_FOR_SERIALIZATION.with(|c| c.borrow().len()),
+            OS_IPC_SHARED_MEMORY_REGIONS_FOR_SERIALIZATION.with(|c| c.borrow().len()),
+        )
+    }
+    /// (channels, regions) currently parked in this thread's deserialisation side tables.
+    pub fn deserialization_tables_len() -> (usize, usize) {
+        (
+            OS_IPC_CHANNELS_FOR_DESERIALIZATION.with(|c| c.borrow().len()),
+            OS_IPC_SHARED_MEMORY_REGIONS_FOR_DESERIALIZATION.with(|c| c.borrow().len()),
+        )
+    }
+    pub fn sender_os<T>(s: &IpcSender<T>) -> &OsIpcSender {
+        &s.os_sender
+    }
+    pub fn receiver_os<T>(r: &IpcReceiver<T>) -> &OsIpcReceiver {
+        &r.os_receiver
+    }
 }
